@@ -76,9 +76,6 @@ Definition sstep (s : scope) (o : nsop) : scope * nsobs :=
 Definition srun (ops : list nsop) : scope := fold_left (fun s o => fst (sstep s o)) ops scope_init.
 
 (* ---- wire format ---- *)
-Definition sx_ns (n : ns) : sexp := L [A "ns"; A (ns_prefix n); A (ns_uri n)].
-Definition sx_qn (q : qname) : sexp :=
-  L [A "qn"; A (ns_prefix (qn_ns q)); A (ns_uri (qn_ns q)); A (qn_local q)].
 Definition sx_dict (d : list (string * ns)) : sexp :=
   L (map (fun kv => L [A (fst kv); sx_ns (snd kv)]) d).
 Definition sx_nsm (m : nsm) : sexp :=
